@@ -161,8 +161,10 @@ func (s *Session) Listener() *Listener {
 	return s.parent
 }
 func (s *Session) hasJob(j uint16) bool {
-	// There's no need to lock here.
+	// NOTE: A map read that races a map write is a fatal runtime error.
+	s.lock.RLock()
 	_, ok := s.jobs[j]
+	s.lock.RUnlock()
 	return ok
 }
 func (s *Session) handle(p *com.Packet) bool {
